@@ -72,6 +72,22 @@ Broken(ia, ib) ==
       \cup (IF R!L_LitSuperset(a, b, r, row.lit) THEN {} ELSE {"LitSuperset"})
       \cup (IF R!L_LitNeverDown(a, b, row.lit) THEN {} ELSE {"LitNeverDown"})
 
+(***************************************************************************)
+(* implicit_cast_type (asg.rs): the type both operands of an arithmetic      *)
+(* operator are cast to.  For + and & it must be the common type itself;     *)
+(* for / it may differ from it (integer division is typed as the unsized     *)
+(* float), but over the numeric tower it must still be an upper bound of     *)
+(* both operands and symmetric up to const-ness.                             *)
+(***************************************************************************)
+OpBroken(ia, ib) ==
+  LET a == T(ia)  b == T(ib)
+      row == Row(ia, ib)
+      num == R!IsNumeric(a) /\ R!IsNumeric(b)
+  IN  (IF row.add = row.p THEN {} ELSE {"AddIsCommonType"})
+      \cup (IF row.band = row.p THEN {} ELSE {"BitAndIsCommonType"})
+      \cup (IF num /\ row.div # row.p /\ ~R!L_UpperBound(a, b, Res(row.div)) THEN {"DivUpperBound"} ELSE {})
+      \cup (IF num /\ ~R!EqUpToConst(Res(row.div), Res(Row(ib, ia).div)) THEN {"DivSymmetric"} ELSE {})
+
 (* associativity on the table, where a common type exists throughout *)
 AssocBroken(ia, ib, ic) ==
   LET ab == Row(ia, ib).p  bc == Row(ib, ic).p IN
@@ -105,6 +121,9 @@ Report ==
      ELSE PrintT(<<"BAD", ToJson([a |-> ia, b |-> ib, clauses |-> br,
                                   dev |-> Classify(T(ia), T(ib), Res(Row(ia, ib).p)),
                                   got |-> Row(ia, ib).pdbg])>>)
+  /\ IF OpBroken(ia, ib) = {} THEN TRUE
+     ELSE PrintT(<<"BAD", ToJson([a |-> ia, b |-> ib, clauses |-> OpBroken(ia, ib), dev |-> "UNEXPECTED_IMPLICIT_CAST",
+                                  got |-> "add/div/bitand type indices " \o ToString(Row(ia, ib).add) \o "/" \o ToString(Row(ia, ib).div) \o "/" \o ToString(Row(ia, ib).band)])>>)
   /\ IF dr = {} THEN TRUE
      ELSE PrintT(<<"DRIFT", ToJson([a |-> ia, b |-> ib, funcs |-> dr])>>)
 
